@@ -10,8 +10,10 @@ import (
 	"strings"
 	"time"
 
+	"github.com/itchio/lake"
 	"github.com/itchio/lake/pools/fspool"
 	"github.com/itchio/lake/tlc"
+	"github.com/itchio/savior"
 	"github.com/itchio/wharf/pwr"
 	"github.com/itchio/wharf/pwr/overlay"
 	"github.com/itchio/wharf/pwr/rediff"
@@ -24,6 +26,8 @@ func init() {
 	runners["C10"] = runC10
 	childHandlers["C10"] = c10Child
 }
+
+var c10SigCache = map[string][]byte{}
 
 // c10Child: `<consumer> <streamfile> <oldDir> <newDir>` -> `ok` | `err <msg>` | `panic <msg>`
 func c10Child(line string) (res string) {
@@ -46,6 +50,28 @@ func c10Child(line string) (res string) {
 		out, _ := os.MkdirTemp("", "wv-c10-")
 		defer os.RemoveAll(out)
 		_, err := applyFresh(data, oldDir, out+"/o", nil, nil)
+		if err != nil {
+			if strings.HasPrefix(err.Error(), "PANIC") {
+				return "panic " + err.Error()
+			}
+			return "err " + err.Error()
+		}
+		return "ok"
+	case "apply-safekeeper":
+		// the old build read through the safekeeper (a caller that has the old build's signature at hand)
+		sig, ok := c10SigCache[oldDir]
+		if !ok {
+			var serr error
+			if sig, _, serr = oldSigBytes(oldDir, Comp{"none", 0}); serr != nil {
+				return "bad-request " + serr.Error()
+			}
+			c10SigCache[oldDir] = sig
+		}
+		out, _ := os.MkdirTemp("", "wv-c10-")
+		defer os.RemoveAll(out)
+		_, err := applyFresh(data, oldDir, out+"/o", func(inner lake.Pool, _ *tlc.Container) (lake.Pool, error) {
+			return pwr.NewSafeKeeper(pwr.SafeKeeperParams{Inner: inner, Open: func() (savior.SeekSource, error) { return bytesSource(sig), nil }})
+		}, nil)
 		if err != nil {
 			if strings.HasPrefix(err.Error(), "PANIC") {
 				return "panic " + err.Error()
@@ -489,11 +515,15 @@ func runC10(env *Env) {
 		for k := 0; k < nMut; k++ {
 			b := bases[k%len(bases)]
 			c := &C10Case{PairSeed: b.seed, Kind: "mutate", MutSeed: rng.Next(), Comp: Comp{"none", 0}}
-			switch k % 3 {
+			switch k % 5 {
 			case 0:
 				c.Stream, c.Consumer = "plain", "apply"
 			case 1:
 				c.Stream, c.Consumer = "optimized", "apply"
+			case 2:
+				c.Stream, c.Consumer = "plain", "apply-safekeeper"
+			case 3:
+				c.Stream, c.Consumer = "optimized", "apply-safekeeper"
 			default:
 				c.Stream, c.Consumer = "plain", "optimize"
 			}
